@@ -547,6 +547,16 @@ def build_query(case, objs, quantifier="an", **qkw):
 
     def cond(c):
         k = c[0]
+        if case.get("share") == 2 and k in ("cmp", "contains") and not (len(c) == 5 and c[4] == "bare"):
+            # share == 2: also ONE Comparator object per written comparison
+            key = "c:" + __import__("json").dumps(c)
+            if key not in shared:
+                shared[key] = cond0(c)
+            return shared[key]
+        return cond0(c)
+
+    def cond0(c):
+        k = c[0]
         if k == "cmp":
             if len(c) == 5 and c[4] == "bare":
                 # a BARE attribute used as a condition (its truthiness); for the analysis, the model and the Spec it is the
@@ -1050,10 +1060,38 @@ def gen_case(rng: Rng, profile: str = "c01", extras: bool = False) -> dict:
     case["sels"] = sels
     if len(sels) == 1 and rng.chance(0.15):
         case["force_setof"] = True
+    if profile == "share" and case["cond"] is not None:
+        # make sub-conditions occur twice (the copy sometimes negated), so that sharing node objects matters:
+        # c = x.a > 1; or_(and_(c, ...), and_(not_(c), ...))
+        import copy as _copy
+
+        def paths(n, here=()):
+            out = [here]
+            if n[0] in ("and", "or"):
+                out += paths(n[1], here + (1,)) + paths(n[2], here + (2,))
+            elif n[0] == "not":
+                out += paths(n[1], here + (1,))
+            return out
+
+        def get(n, pth):
+            for i in pth:
+                n = n[i]
+            return n
+
+        for _ in range(rng.choice([0, 1, 1, 2])):
+            ps = [q for q in paths(case["cond"]) if q]
+            if len(ps) < 2:
+                break
+            src, dst = rng.choice(ps), rng.choice(ps)
+            if src == dst or src[:len(dst)] == dst or dst[:len(src)] == src:
+                continue
+            sub = _copy.deepcopy(get(case["cond"], src))
+            get(case["cond"], dst[:-1])[dst[-1]] = ["not", sub] if rng.chance(0.4) else sub
+        case["sels"] = [sel for sel in case["sels"] if opnd_var(sel) in cond_vars(case["cond"])] or case["sels"]
     if profile == "share":
         # ONE node object per written attribute / index / call expression (xa = x.a; and_(xa <= 1, not_(xa))): the model, the
         # Spec and the fragment flags do not see object identity; repaired in da356f6 (C01-e)
-        case["share"] = 1
+        case["share"] = rng.choice([1, 2])       # 2: also one Comparator object per written comparison
     return case
 
 
